@@ -68,6 +68,8 @@ pub struct World {
     pub keep_trace: bool,
     /// scenario-local switch: generators may use characters that need csv quoting across lines
     pub wild: Cell<bool>,
+    /// bytes the generators may still spend on deliberately large items (see `take_big`)
+    pub big_left: Cell<usize>,
 }
 
 pub type W = Rc<World>;
@@ -98,6 +100,7 @@ impl World {
             notes: RefCell::new(Vec::new()),
             keep_trace,
             wild: Cell::new(false),
+            big_left: Cell::new(64 << 20),
         })
     }
 
@@ -128,6 +131,21 @@ impl World {
     pub fn fired(&self, kind: &'static str) {
         self.fired.borrow_mut().add(kind, 1);
     }
+    /// The generators' budget for deliberately large items (a megabyte field, an 8 MiB sequence,
+    /// a key with 70 000 values): 64 MiB per run. The sizes are drawn item by item, and a replay
+    /// list edited by the minimiser can switch every one of them on at once — thousands of records
+    /// with several MiB each — which is no longer a test of the library but of the machine's
+    /// memory. Returns false once the budget is spent; the caller then generates a small item.
+    pub fn take_big(&self, n: usize) -> bool {
+        let left = self.big_left.get();
+        if n <= left {
+            self.big_left.set(left - n);
+            true
+        } else {
+            false
+        }
+    }
+
     pub fn probe(&self, name: &'static str) {
         self.probes.borrow_mut().add(name, 1);
     }
